@@ -209,6 +209,25 @@ impl Pager {
             .truncate(false)
             .open(&path)?;
 
+        // One handle per database file: the exclusive advisory lock lives as long as this
+        // file handle, so a second open (same or another process) is refused until the first
+        // handle is closed or dropped. File systems without lock support are left as before.
+        match file.try_lock() {
+            Ok(()) => {}
+            Err(std::fs::TryLockError::WouldBlock) => {
+                return Err(Error::Io(std::io::Error::new(
+                    std::io::ErrorKind::WouldBlock,
+                    format!(
+                        "database file {} is already open in another handle",
+                        path.display()
+                    ),
+                )));
+            }
+            Err(std::fs::TryLockError::Error(e))
+                if e.kind() == std::io::ErrorKind::Unsupported => {}
+            Err(std::fs::TryLockError::Error(e)) => return Err(Error::Io(e)),
+        }
+
         // A crash during the very first open leaves a file that is still empty, shorter than the
         // two header pages, or sized but with an all-zero meta page. None of these can hold data:
         // finish the initialisation instead of refusing to open.
